@@ -1,7 +1,8 @@
 SPECIFICATION GenSpec
 CONSTANTS
   Cap = 4
-  Sizes <- GenSizes
+  WSizes <- GenWSizes
+  RSizes <- GenRSizes
   MaxOps = @@OPS@@
   Atomic = TRUE
 INVARIANT Inv
